@@ -215,6 +215,9 @@ func runC16(w *mon.W) {
 			if name == "" {
 				name = "Supplier " + string(letters[i])
 			}
+			if r.Intn(4) == 0 { // names aligned with several blanks or a tab inside are names like any other
+				name = strings.Replace(name, " ", []string{"  ", "   ", "  -  ", " \t"}[r.Intn(4)], 1+r.Intn(2))
+			}
 			name += fmt.Sprintf(" (%d/%02d)", 1+r.Intn(12), r.Intn(22))
 			suppliers[letters[i]] = name
 			avail = append(avail, letters[i])
